@@ -278,6 +278,7 @@ Definition op_fevs (e : envf) (s : est * list N * list N) (o : op) : list fev :=
   match o with
   | OSpan tid cs id m vals =>
       reg cs m ++ (if env_enabled e (fst (reg_if_new e st seen cs m)) tid cs m then [FNewSpan cs id vals] else [])
+  | OSpanAbort tid cs m => reg cs m
   | ORecord id vals => if existsb (N.eqb id) live then [FRecord id vals] else []
   | OEnter tid id => if existsb (N.eqb id) live then [FEnter tid id] else []
   | OExit tid id => if existsb (N.eqb id) live then [FExit tid id] else []
@@ -298,10 +299,11 @@ Proof. unfold reg_if_new. destruct (existsb (N.eqb cs) seen); reflexivity. Qed.
 Lemma step_est e s o : est_of (fst (step e s o)) = fold_left (fstep e) (op_fevs e s o) (est_of s).
 Proof.
   destruct s as [[st seen] live]. unfold est_of. cbn [fst].
-  destruct o as [tid cs id m vals|id vals|tid id|tid id|id|tid cs m]; unfold step, op_fevs.
+  destruct o as [tid cs id m vals|tid cs m|id vals|tid id|tid id|id|tid cs m]; unfold step, op_fevs.
   - rewrite fold_left_app. rewrite <- reg_if_new_est.
     remember (reg_if_new e st seen cs m) as rr eqn:R. destruct rr as [st1 seen1]. simpl fst.
     destruct (env_enabled e st1 tid cs m); reflexivity.
+  - rewrite <- reg_if_new_est. remember (reg_if_new e st seen cs m) as rr eqn:R. destruct rr as [st1 seen1]. reflexivity.
   - destruct (existsb (N.eqb id) live); reflexivity.
   - destruct (existsb (N.eqb id) live); reflexivity.
   - destruct (existsb (N.eqb id) live); reflexivity.
